@@ -253,6 +253,8 @@ def float_trunc_term(I, x):
     lim = z3.FPVal(float(2 ** 62), F64)
     small = z3.And(z3.fpLT(x, lim), z3.fpGT(x, z3.fpNeg(lim)))
     conv = z3.BV2Int(z3.fpToSBV(RTZ, x, z3.BitVecSort(64)), True)
+    if z3.is_true(I.path.reduce(small)):       # (C13) |x| < 2**62 is a literal fact of the path: exact case only,
+        return mk_int(conv)                    # no unbounded 'hugeint' symbol in the path condition
     r = z3.Int('hugeint!%d' % x.get_id())     # same term -> same symbol
     I._keep = _b.getattr(I, '_keep', [])
     I._keep.append(x)                          # keep the AST (and its id) alive
@@ -354,7 +356,9 @@ def to_str(I, v):
     if isinstance(v, (bool, int, float)) or v is None:
         return str(v)
     if isinstance(v, SInt):
-        return int_to_str(I, v)
+        return OpaqueStr('str(int)', v)
+    if isinstance(v, (SFloat, SReal)):
+        return OpaqueStr('str(float)', v)
     if isinstance(v, ExcVal):
         if len(v.args) == 1:
             return to_str(I, v.args[0])
